@@ -1,6 +1,10 @@
 (* MultiBigmin.v — the BIGMIN specification (MultiRange.bigmin_spec_w):
-   (a) a generic executable checker with a soundness proof, run exhaustively on small widths;
-   (b) see the end of the file for the general statement. *)
+   (a) a generic executable checker with a soundness proof, run exhaustively on small widths
+       (bigmin_spec_2d_3bit, bigmin_spec_3d_2bit, bigmin_spec_4d_1bit);
+   (b) the general theorem bigmin_spec_general: for every well-formed configuration and every width,
+       by induction over the bit index (invariant Inv below);
+   (c) multi_index_correct: build + contains + range with BIGMIN discharged, relative only to the
+       contract (C02) of the inner PGM-index. *)
 Require Import Base Fp PlaModel GenLeaf IndexModel IndexProofs MultiModel MultiMorton MultiRange.
 From Coq Require Import ZifyBool.
 Local Open Scope Z_scope.
@@ -808,3 +812,118 @@ Proof.
 Qed.
 
 Print Assumptions bigmin_spec_general.
+
+From Coq Require Import Permutation.
+
+(* ==== (c) the container: build + contains + range, with BIGMIN discharged ==== *)
+Lemma sortedb_cons_iff y l : sortedb (y :: l) = true <-> (forall z, In z l -> y <= z) /\ sortedb l = true.
+Proof.
+  split.
+  - intros H. split; [intros z Hz; eapply sortedb_head_le; eassumption|eapply sortedb_tail; eassumption].
+  - intros [H1 H2]. destruct l as [|z t]; [reflexivity|].
+    cbn [sortedb] in *. apply andb_true_intro. split; [|exact H2].
+    specialize (H1 z (or_introl eq_refl)). lia.
+Qed.
+
+Lemma insert_sorted_in x l z : In z (insert_sorted x l) <-> z = x \/ In z l.
+Proof.
+  induction l as [|y t IH]; cbn [insert_sorted In]; [intuition|].
+  destruct (x <=? y); cbn [In]; [intuition|]. rewrite IH. intuition.
+Qed.
+
+Lemma insert_sorted_sorted x l : sortedb l = true -> sortedb (insert_sorted x l) = true.
+Proof.
+  induction l as [|y t IH]; intros Hs; [reflexivity|].
+  cbn [insert_sorted]. destruct (x <=? y) eqn:E.
+  - apply sortedb_cons_iff. split; [|exact Hs].
+    intros z [<-|Hz]; [lia|]. apply sortedb_cons_iff in Hs. destruct Hs as [H1 _]. specialize (H1 z Hz). lia.
+  - apply sortedb_cons_iff in Hs. destruct Hs as [H1 H2]. apply sortedb_cons_iff. split; [|apply IH; exact H2].
+    intros z Hz. apply insert_sorted_in in Hz. destruct Hz as [->|Hz]; [lia|apply H1; exact Hz].
+Qed.
+
+Lemma sort_codes_sorted l : sortedb (sort_codes l) = true.
+Proof. induction l as [|x t IH]; [reflexivity|]. cbn [sort_codes fold_right]. apply insert_sorted_sorted. exact IH. Qed.
+
+Lemma insert_sorted_perm x l : Permutation (insert_sorted x l) (x :: l).
+Proof.
+  induction l as [|y t IH]; [reflexivity|]. cbn [insert_sorted].
+  destruct (x <=? y); [reflexivity|]. rewrite IH. apply perm_swap.
+Qed.
+Lemma sort_codes_perm l : Permutation (sort_codes l) l.
+Proof.
+  induction l as [|x t IH]; [reflexivity|]. cbn [sort_codes fold_right].
+  rewrite insert_sorted_perm. constructor. exact IH.
+Qed.
+
+Definition point_ok (m : mcfg) (p : list Z) : Prop := zlen p = m_dims m /\ Forall (fun x => 0 <= x) p.
+
+Lemma bit_width_small x f : 0 <= x -> 1 <= f -> (BIT_WIDTH x >=? f) = false -> x < 2 ^ (f - 1).
+Proof.
+  intros Hx Hf H. unfold BIT_WIDTH, clzll in H. destruct (x =? 0) eqn:E.
+  - assert (x = 0) by lia. subst x. apply Z.pow_pos_nonneg; lia.
+  - apply Z.log2_lt_pow2; lia.
+Qed.
+
+Lemma multi_build_ok m points mu : multi_build m points = Ok mu ->
+  mu_data mu = sort_codes (map (encode m) points) /\
+  (forall p x, In p points -> In x p -> (BIT_WIDTH x >=? field_bits m) = false).
+Proof.
+  unfold multi_build. intros H.
+  destruct (existsb (fun p => existsb (fun x => BIT_WIDTH x >=? field_bits m) p) points) eqn:E; [discriminate|].
+  destruct (build (m_cfg m) (sort_codes (map (encode m) points))) as [ix|e] eqn:Eb; cbn [bind] in H; [|discriminate].
+  injection H as <-. split; [reflexivity|].
+  intros p x Hp Hxp. destruct (BIT_WIDTH x >=? field_bits m) eqn:Ew; [|reflexivity].
+  assert (existsb (fun p => existsb (fun x => BIT_WIDTH x >=? field_bits m) p) points = true); [|congruence].
+  apply existsb_exists. exists p. split; [exact Hp|]. apply existsb_exists. exists x. split; assumption.
+Qed.
+
+Lemma built_points_ok m points mu : wf_mcfg m -> Forall (point_ok m) points -> multi_build m points = Ok mu ->
+  forall p, In p points -> zlen p = m_dims m /\ coords_ok (field_bits m) p.
+Proof.
+  intros Hwf Hok Hb p Hp. destruct (multi_build_ok m points mu Hb) as [_ Hw].
+  rewrite Forall_forall in Hok. destruct (Hok p Hp) as [Hl Hnn]. split; [exact Hl|].
+  unfold coords_ok. rewrite Forall_forall in *. intros x Hx. specialize (Hnn x Hx).
+  pose proof (F_pos m Hwf) as HF.
+  pose proof (bit_width_small x (field_bits m) Hnn HF (Hw p x Hp Hx)) as Hs.
+  assert (2 ^ (field_bits m - 1) <= 2 ^ field_bits m) by (apply Z.pow_le_mono_r; lia). lia.
+Qed.
+
+Theorem multi_index_correct m points mu :
+  valid_mcfg m -> Forall (point_ok m) points -> multi_build m points = Ok mu ->
+  (* C02 of the inner index *)
+  (forall q, 0 <= q -> exists lo hi, multi_range_of m mu q = Ok (lo, hi) /\ 0 <= lo /\
+     lo <= lb (mu_data mu) q /\ lb (mu_data mu) q <= hi /\ hi <= zlen (mu_data mu)) ->
+  let stored := map (decode m) (mu_data mu) in
+  Permutation stored points /\
+  (forall p, zlen p = m_dims m -> coords_ok (field_bits m) p ->
+     exists b, multi_contains m mu p = Ok b /\ (b = true <-> In p points)) /\
+  (forall pmin pmax, zlen pmin = m_dims m -> zlen pmax = m_dims m ->
+     coords_ok (field_bits m) pmin -> coords_ok (field_bits m) pmax -> Forall2 Z.le pmin pmax ->
+     multi_range m mu pmin pmax = Ok (filter (in_boxb pmin pmax) stored)).
+Proof.
+  intros Hv Hok Hb Hrange stored. pose proof (valid_wf m Hv) as Hwf.
+  destruct (multi_build_ok m points mu Hb) as [Hd _].
+  pose proof (built_points_ok m points mu Hwf Hok Hb) as Hpts.
+  pose proof (sort_codes_perm (map (encode m) points)) as Hperm. rewrite <- Hd in Hperm.
+  assert (Hsorted : sortedb (mu_data mu) = true) by (rewrite Hd; apply sort_codes_sorted).
+  assert (Hcodes : Forall (fun c => 0 <= c < 2 ^ (m_dims m * field_bits m)) (mu_data mu)).
+  { apply Forall_forall. intros c Hc. apply (Permutation_in _ Hperm) in Hc.
+    apply in_map_iff in Hc. destruct Hc as (p & <- & Hp). apply (encode_range m Hwf). apply Hpts. exact Hp. }
+  split; [|split].
+  - unfold stored. rewrite (Permutation_map (decode m) Hperm), map_map.
+    rewrite (map_ext_in _ (fun p => p)); [rewrite map_id; reflexivity|].
+    intros p Hp. destruct (Hpts p Hp). apply (decode_encode_wf m Hwf); assumption.
+  - intros p Hl Hp. eexists. split.
+    + apply (contains_spec m Hwf mu (mu_data mu) eq_refl Hsorted Hcodes Hrange p Hl Hp).
+    + rewrite existsb_exists. split.
+      * intros (c & Hc & E). apply Z.eqb_eq in E. subst c. apply (Permutation_in _ Hperm) in Hc.
+        apply in_map_iff in Hc. destruct Hc as (q & E & Hq). destruct (Hpts q Hq).
+        rewrite <- (encode_injective_wf m Hwf q p); assumption.
+      * intros Hin. exists (encode m p). split; [|apply Z.eqb_refl].
+        apply (Permutation_in _ (Permutation_sym Hperm)). apply in_map. exact Hin.
+  - intros pmin pmax L1 L2 C1 C2 Hle. unfold stored.
+    apply (range_spec_points m Hwf mu (mu_data mu) eq_refl Hsorted Hcodes Hrange (field_bits m));
+      try assumption; [pose proof (F_pos m Hwf); lia|apply bigmin_spec_general; exact Hwf].
+Qed.
+
+Print Assumptions multi_index_correct.
